@@ -12,6 +12,7 @@ import (
 	"path/filepath"
 	"sort"
 	"strings"
+	"sync/atomic"
 
 	"github.com/tailscale/setec/acl"
 	"github.com/tailscale/setec/audit"
@@ -194,4 +195,21 @@ func BreakDir(dbPath string, f func()) {
 		}
 	}()
 	f()
+}
+
+// FlakySink is an audit sink that stores nothing and whose Sync can be made to fail (the record reached
+// the page cache, not the disk): an audit-log fault that leaves the writer usable afterwards.
+type FlakySink struct{ FailSync atomic.Bool }
+
+func (s *FlakySink) Write(p []byte) (int, error) { return len(p), nil }
+func (s *FlakySink) Sync() error {
+	if s.FailSync.Load() {
+		return errors.New("injected: audit log fsync failed")
+	}
+	return nil
+}
+
+// OpenFlaky opens the database with an audit writer on sink.
+func OpenFlaky(path string, key tink.AEAD, sink *FlakySink) (*db.DB, error) {
+	return db.Open(path, key, audit.New(sink))
 }
